@@ -135,13 +135,15 @@ def check_C03(ctx, rep):
     state.check_hidden_state(ctx, rep, modules=['nfa_algorithms'])
     work.check_marker_alias(ctx, rep, ctx.prog.func('nfa_algorithms.nfa_to_dfa'))
     _closed(ctx, rep, ['nfa_algorithms.nfa_to_dfa'], 3)
+    models.check_alphabet_preserved(ctx, rep, F(ctx, 'nfa_algorithms.nfa_to_dfa'))
+    rep.clauses_decided.append('the DFA is built over the declared alphabet of the NFA, not over the symbols that happen to label transitions (R-ALPHA)')
     if closed.check_subset_names(ctx, rep, ctx.prog.func('nfa_algorithms.nfa_to_dfa')) < 2:
         raise AnalysisError('fewer than 2 subset naming / enqueue sites in nfa_to_dfa')
 
 
 def check_C04(ctx, rep):
     rep.clauses_decided += ['placeholder blocks never become states (R-SLOT)', 'refinement loops stop only at a stable partition and every change is registered (R-WORK W5, Hopcroft sub-template)',
-                            'input DFA unchanged (R-EFFECT)', 'a state joins / a block is named after a comparison with a representative of that same block (R-WORK.rep)']
+                            'input DFA unchanged (R-EFFECT)', 'a state joins / a block is named after a comparison with a representative of that same block (R-WORK.rep)', 'the table of the table-filling minimiser is indexed by the same enumeration of Q where it is filled and where it is read (R-INDEX)']
     rep.not_decided += ['that the stable partition is the Myhill-Nerode partition; equivalence of the result; independence of the language from the choice order']
     if not work.check_flag_fixpoint(ctx, rep, ctx.prog.func('dfa_algorithms.dfa_minimize')):
         raise AnalysisError('table-filling flag loop vanished')
@@ -151,7 +153,9 @@ def check_C04(ctx, rep):
     mins = F(ctx, 'dfa_algorithms.dfa_minimize', 'dfa_algorithms.dfa_quotient', 'dfa_algorithms.dfa_hopfcroft')
     if sum(work.check_representatives(ctx, rep, m) for m in mins) < 2:
         raise AnalysisError('fewer than 2 uses of block representatives found in the minimisers')
+    misc.check_index_agreement(ctx, rep, ctx.prog.func('dfa_algorithms.dfa_minimize'))
     work.check_one_shot_iterators(ctx, rep, mins)
+    work.check_consumed_twice(ctx, rep, mins)
     misc.check_minimiser_siblings(ctx, rep, mins)
     order.check_independence(ctx, rep, mins + F(ctx, 'dfa_algorithms.dfa_from_table'), must=False)
     if not misc.check_slots(ctx, rep, ctx.prog.func('dfa_algorithms.dfa_from_table')):
@@ -252,7 +256,8 @@ def check_C06(ctx, rep):
     dispatch.check_generator_mapping(ctx, rep, ctx.prog.func('regexp_algorithms.RegexpToNFAGenerator.generate'))
     if not ka_rules.check_rip_model(ctx, rep, ctx.prog.func('regexp_algorithms.gnfa_minimize')):
         ka_rules.check_rip_step(ctx, rep, ctx.prog.func('regexp_algorithms.gnfa_minimize'))
-    ka_rules.check_gnfa_edges(ctx, rep, ctx.prog.func('regexp_algorithms.dfa_to_gnfa'))
+    if not ka_rules.check_gnfa_edges_model(ctx, rep, ctx.prog.func('regexp_algorithms.dfa_to_gnfa')):
+        ka_rules.check_gnfa_edges(ctx, rep, ctx.prog.func('regexp_algorithms.dfa_to_gnfa'))
     _simplifier(ctx, rep)
     state.check_hidden_state(ctx, rep, modules=['regexp_algorithms', 'nfa_algorithms'])
     for f, st in dispatch.regexp_recursions(ctx):
@@ -447,6 +452,7 @@ def check_C13(ctx, rep):
     if dispatch.check_templates(ctx, rep) < 60:
         raise AnalysisError('fewer than 60 template tags / checker calls found')
     iorules.check_keywords(ctx, rep)
+    iorules.check_declared_lines_unconditional(ctx, rep)
     if iorules.check_state_formats(ctx, rep, STATE_NAME_CHAINS) < 5:
         raise AnalysisError('fewer than 5 state-name chains decided')
     iorules.check_regexp_io(ctx, rep)
@@ -459,6 +465,9 @@ def check_C13(ctx, rep):
     iorules.check_line_delimiters(ctx, rep)
     misc.check_minimiser_siblings(ctx, rep, F(ctx, 'dfa_algorithms.dfa_minimize', 'dfa_algorithms.dfa_quotient', 'dfa_algorithms.dfa_hopfcroft'))
     models.check_reverse_agreement(ctx, rep, ctx.prog.func('dfa_algorithms.dfa_reverse'), ctx.prog.func('notebook_dfa.check_dfa_reverse'))
+    # the checkers compare the alphabet of the answer with the alphabet of the reference object
+    models.check_alphabet_preserved(ctx, rep, F(ctx, 'nfa_algorithms.nfa_to_dfa', 'dfa_algorithms.dfa_complement', 'dfa_algorithms.dfa_reverse', 'dfa_algorithms.dfa_product',
+                                                'dfa_algorithms.dfa_quotient', 'dfa_algorithms.dfa_hopfcroft', 'dfa_algorithms.dfa_from_table'))
     rep.extra['templates'] = len(ctx.prog.templates)
     rep.extra['template_tags'] = sum(len(t.tags) for t in ctx.prog.templates.values())
 
@@ -467,6 +476,7 @@ def check_C16(ctx, rep):
     rep.clauses_decided += ['keywords (R-IO a)', 'label layout roles and arity (R-IO b)', 'operator tokens, precedence order, symbol class (R-IO d)',
                             'CFG epsilon spelling and rule layout (R-IO e)', 'generated parsers match the .g4 files (R-IO f)', 'declared-versus-empty (R-BUILD)']
     rep.not_decided += ['field-by-field equality of the re-parsed object']
+    iorules.check_declared_lines_unconditional(ctx, rep)
     if iorules.check_keywords(ctx, rep) < 20:
         raise AnalysisError('fewer than 20 printed keywords / builder keys found')
     iorules.check_label_layout(ctx, rep, 'pda')
@@ -507,6 +517,7 @@ def check_C17(ctx, rep):
     iorules.check_label_layout(ctx, rep, 'pda')
     iorules.check_label_layout(ctx, rep, 'tm')
     iorules.check_keywords(ctx, rep)
+    iorules.check_declared_lines_unconditional(ctx, rep)
     iorules.check_line_delimiters(ctx, rep)
 
 
@@ -551,7 +562,8 @@ def check_C15(ctx, rep):
                             'the history alternates raw and closed sets; acceptance and steps on closed sets (R-CLOSED i/ii/iv)',
                             'right-hand sides are unpacked into two symbols only under a length-2 test (R-ARITY)',
                             'every node of the derivation tree is expanded by exactly one alternative: the loop over the split points is left after the children were added (R-WORK W9)',
-                            'the stack step behind the PDA trace: guard true exactly when u is epsilon or on top, action pops u / pushes v (M9, finite model)']
+                            'the stack step behind the PDA trace: guard true exactly when u is epsilon or on top, action pops u / pushes v (M9, finite model)',
+                            'the rows of the run are assembled in the order of the computation: forward chunks prepended, or reversed chunks appended and one final reversal (order algebra, M8)']
     rep.not_decided += ['that each returned row is a legal move; leftmost/rightmost order of the derivation']
     _worklists_in(ctx, rep, ['nfa_algorithms.nfa_find_epsilon_path', 'pda_algorithms.pda_find_epsilon_path', 'nfa_algorithms.epsilon_closure', 'pda_algorithms.pda_epsilon_closure'])
     work.check_worklists(ctx, rep, F(ctx, 'cfg_algorithms.cfg_derive_word', 'cfg_algorithms.cfg_derive_word.extract_derivation'))
@@ -564,6 +576,8 @@ def check_C15(ctx, rep):
     closed.check_history(ctx, rep, P('pda_algorithms.pda_simulate_word'))
     models.check_backward_word(ctx, rep, P('nfa_algorithms.nfa_simulate_word'))
     models.check_backward_word(ctx, rep, P('pda_algorithms.pda_simulate_word'))
+    models.check_trace_order(ctx, rep, P('nfa_algorithms.nfa_simulate_word'))
+    models.check_trace_order(ctx, rep, P('pda_algorithms.pda_simulate_word'))
     if misc.check_arity(ctx, rep, P('cfg_algorithms.cfg_derive_word')) < 1:
         raise AnalysisError('right-hand-side unpack in cfg_derive_word vanished')
     pda_rules.check_find_transition(ctx, rep, P('pda_algorithms.pda_find_transition'))
@@ -625,6 +639,7 @@ def check_C19(ctx, rep):
         raise AnalysisError('fewer than 5 logging/verbose-guarded sites found')
     state.check_hidden_state(ctx, rep)
     work.check_one_shot_iterators(ctx, rep, lib)
+    work.check_consumed_twice(ctx, rep, lib)
     # a fixpoint loop that can stop early stops at a point that depends on the iteration order of the sets it walks
     for f0 in lib:
         if f0.parent is None and any(isinstance(x, ast.While) for x in ast.walk(f0.node)):
